@@ -833,6 +833,11 @@ class ExprRewriter(ast.NodeTransformer, EmitterMixin):
 
     visit_FunctionDef = visit_AsyncFunctionDef = visit_FunctionDef_or_AsyncFunctionDef
 
+    def visit_TypeVar(self, node):
+        # the compiler tells the constraints of `T: (int, str)` from a bound `T: int` by the bound being a tuple
+        # DISPLAY: a wrapped display would silently become a bound.  Leave type parameters as written.
+        return node
+
     def visit_ClassDef(self, node: ast.ClassDef):
         # the decorators of a class are decorators too
         decorator_list = node.decorator_list
